@@ -316,8 +316,8 @@ static void lockstep(const vh::Lines &ls) {
 			std::unique_lock<std::mutex> lk(x->m);
 			x->job = job; x->has_job = true; x->done = false; x->asserted = false;
 			x->cv.notify_all();
-			if(!x->cv.wait_for(lk, std::chrono::seconds(5), [&] { return x->done; })) {
-				vh::oracle("deadlock", "%s() of agent %d did not return within 5 s (all other agents are suspended)", op_name(op), t);
+			if(!x->cv.wait_for(lk, std::chrono::seconds(20), [&] { return x->done; })) {
+				vh::oracle("deadlock", "%s() of agent %d did not return within 20 s (all other agents are suspended)", op_name(op), t);
 				fflush(stdout); _exit(96);
 			}
 		}
